@@ -132,13 +132,43 @@ func (g *Plugin) migrateDefaultQuotaGroupsPod() {
 		}
 		if curMgr.GetTreeID() != "" {
 			// different tree.
-			g.groupQuotaManager.OnPodDelete(extension.DefaultQuotaName, pod)
-			curMgr.OnPodAdd(quotaName, pod)
+			g.migratePodToTree(pod, quotaName, curMgr)
 		} else {
 			// the same tree.
 			curMgr.MigratePod(pod, extension.DefaultQuotaName, quotaName)
 		}
 	}
+}
+
+// migratePodToTree moves a pod from the DefaultQuotaGroup to its quota in another quota tree, a reservation which was made
+// while the pod was in the DefaultQuotaGroup is kept.
+func (g *Plugin) migratePodToTree(pod *v1.Pod, quotaName string, mgr *core.GroupQuotaManager) {
+	defaultQuotaInfo := g.groupQuotaManager.GetQuotaInfoByName(extension.DefaultQuotaName)
+	if defaultQuotaInfo == nil || !defaultQuotaInfo.IsPodExist(pod) {
+		return
+	}
+	isAssigned := defaultQuotaInfo.CheckPodIsAssigned(pod)
+	g.groupQuotaManager.OnPodDelete(extension.DefaultQuotaName, pod)
+	mgr.OnPodAdd(quotaName, pod)
+	if isAssigned {
+		mgr.ReservePod(quotaName, pod)
+	}
+}
+
+// migrateParkedPodIfNeeded handles a pod event which is routed to a quota of another quota tree while the pod is still in the
+// DefaultQuotaGroup (the quota was created after the pod and migrateDefaultQuotaGroupsPod has not run yet): the pod is
+// moved first, so that the event finds it in its own quota.
+func (g *Plugin) migrateParkedPodIfNeeded(pod *v1.Pod, quotaName string, mgr *core.GroupQuotaManager) {
+	if pod == nil || mgr == nil || mgr.GetTreeID() == "" || mgr.GetQuotaInfoByName(quotaName) == nil {
+		return
+	}
+	g.migratePodToTree(pod, quotaName, mgr)
+}
+
+// isPodInDefaultQuota returns true if the pod is still in the DefaultQuotaGroup of the default quota tree.
+func (g *Plugin) isPodInDefaultQuota(pod *v1.Pod) bool {
+	defaultQuotaInfo := g.groupQuotaManager.GetQuotaInfoByName(extension.DefaultQuotaName)
+	return defaultQuotaInfo != nil && defaultQuotaInfo.IsPodExist(pod)
 }
 
 // migratePods if a quotaGroup is deleted, migrate its pods to defaultQuotaGroup
